@@ -39,6 +39,8 @@ class FnPrinter:
         self.is_ctor = node['kind'] == 'CXXConstructorDecl'
         self.ret_ref = False
         self.uncontracted_loops = 0
+        self.stmt_counts = {}
+        self.temp_loops = {}
 
     # ------------------------------------------------------------- helpers
     def fail(self, n, why):
@@ -53,9 +55,34 @@ class FnPrinter:
         return self.tr.category(self.ty(n))
 
     def new_temp(self, ctype_decl_fn):
-        name = '__t%d' % len(self.temps)
+        # temporaries are declared at the start of the innermost enclosing loop body (so that they need not be listed in
+        # that loop's assigns clause) or at the start of the function
+        # cbmc 6.11 dfcc does not put locals declared inside a loop that has a contract into the loop's write set, so
+        # temporaries are declared at function level and appended mechanically to the assigns clause of every enclosing
+        # loop that has one (see print_function)
+        self.temp_count = getattr(self, 'temp_count', 0) + 1
+        name = '__t%d' % (self.temp_count - 1)
         self.temps.append(ctype_decl_fn(name))
+        for k in getattr(self, 'loop_stack', []):
+            self.temp_loops.setdefault(k, []).append(name)
         return name
+
+    def loop_body(self, n, out):
+        """print statement n as the braced body of a loop, with the temporaries created inside declared at its start"""
+        if not hasattr(self, 'loop_stack'): self.loop_stack = []
+        self.loop_stack.append(self.current_loop)
+        out.append(self.ind() + '{')
+        mark = len(out)
+        self.indent += 1
+        if self.tr.hooks and hasattr(self.tr.hooks, 'loop_ghost'):
+            for g in self.tr.hooks.loop_ghost(self.cname, self.current_loop): out.append(self.ind() + g + ' /* ghost */')
+        if n.get('kind') == 'CompoundStmt':
+            for c in n.get('inner', []): self.stmt(c, out)
+        else:
+            self.stmt(n, out)
+        self.indent -= 1
+        out.append(self.ind() + '}')
+        self.loop_stack.pop()
 
     def lname(self, decl_id, hint=None):
         if decl_id in self.local_names: return self.local_names[decl_id]
@@ -535,8 +562,14 @@ class FnPrinter:
 
     def st_CompoundStmt(self, n, out): self.block(n, out)
     def st_NullStmt(self, n, out): out.append(self.ind() + ';')
-    def st_BreakStmt(self, n, out): out.append(self.ind() + 'break;')
-    def st_ContinueStmt(self, n, out): out.append(self.ind() + 'continue;')
+    def spec_asserts(self, kind, out):
+        k = self.stmt_counts.get(kind, 0) + 1; self.stmt_counts[kind] = k
+        if self.tr.hooks and hasattr(self.tr.hooks, 'stmt_asserts'):
+            for l in self.tr.hooks.stmt_asserts(self.cname, kind, k): out.append(self.ind() + l)
+    def st_BreakStmt(self, n, out):
+        self.spec_asserts('break', out); out.append(self.ind() + 'break;')
+    def st_ContinueStmt(self, n, out):
+        self.spec_asserts('continue', out); out.append(self.ind() + 'continue;')
 
     def st_DeclStmt(self, n, out):
         for d in n.get('inner', []):
@@ -575,7 +608,7 @@ class FnPrinter:
         decl = self.tr.decl_text_t(t, name)
         if init is None:
             cat = self.tr.category(t)
-            if cat in ('str', 'sv', 'vec', 'opt', 'sstream'):
+            if cat in ('str', 'sv', 'vec', 'opt', 'sstream', 'umap'):
                 out.append(self.ind() + '%s = {0};' % decl)
                 if cat in ('vec', 'str', 'sstream'):
                     out.append(self.ind() + self.tr.lib.default_init_stmt(self, t, cat, name))
@@ -601,6 +634,7 @@ class FnPrinter:
 
     def st_ReturnStmt(self, n, out):
         inner = [c for c in n.get('inner', []) if c]
+        self.spec_asserts('return', out)
         self.canary(out)
         if not inner:
             out.append(self.ind() + 'return;'); return
@@ -652,6 +686,7 @@ class FnPrinter:
 
     def loop_contract(self):
         self.loop_no += 1
+        self.current_loop = self.loop_no
         lc = self.tr.hooks.loop_contract(self.cname, self.loop_no) if self.tr.hooks else []
         if not lc: self.uncontracted_loops += 1
         return ['/*@loop %d*/' % self.loop_no] + lc
@@ -664,14 +699,14 @@ class FnPrinter:
         if self._stmt_may_throw: self.fail(n, 'throwing call in loop condition')
         out.append(self.ind() + 'while (%s)' % ce)
         for l in lc: out.append(self.ind() + '  ' + l)
-        self.block(body, out)
+        self.loop_body(body, out)
 
     def st_DoStmt(self, n, out):
         body, c = n['inner'][0], n['inner'][1]
         lc = self.loop_contract()
         out.append(self.ind() + 'do')
         for l in lc: out.append(self.ind() + '  ' + l)     # cbmc wants do-while contracts between 'do' and the body
-        self.block(body, out)
+        self.loop_body(body, out)
         out.append(self.ind() + 'while (%s);' % self.cond(c))
 
     def st_ForStmt(self, n, out):
@@ -684,7 +719,7 @@ class FnPrinter:
         if self._stmt_may_throw: self.fail(n, 'throwing call in for header')
         out.append(self.ind() + 'for (; %s; %s)' % (ce, ie))
         for l in lc: out.append(self.ind() + '  ' + l)
-        self.block(body, out)
+        self.loop_body(body, out)
         self.indent -= 1; out.append(self.ind() + '}')
 
     def st_CXXForRangeStmt(self, n, out):
@@ -769,7 +804,7 @@ class FnPrinter:
         out.append(self.ind() + '%s:' % n['name'])
         self.stmt(n['inner'][0], out)
     def st_GotoStmt(self, n, out):
-        lab = self.tr.decl.get(n.get('targetLabelDeclId'), {}).get('name') or n.get('name')
+        lab = self.tr.labels.get(n.get('targetLabelDeclId')) or n.get('name')
         if not lab: self.fail(n, 'goto target')
         out.append(self.ind() + 'goto %s;' % lab)
 
@@ -800,6 +835,16 @@ class FnPrinter:
         lines = head + ['{']
         for tdecl in self.temps:
             lines.append('  %s;' % tdecl)
+        for k, names in self.temp_loops.items():
+            # append the temporaries created inside loop k to its assigns clause (first one after the loop marker)
+            for i, l in enumerate(out):
+                if '/*@loop %d*/' % k in l:
+                    for j in range(i + 1, min(i + 4, len(out))):
+                        if out[j].lstrip().startswith('__CPROVER_assigns('):
+                            inner = out[j].rstrip()
+                            out[j] = inner[:-1] + (', ' if not inner.endswith('(') else '') + ', '.join(names) + ')'
+                            break
+                    break
         if self.uncontracted_loops:
             # dfcc (cbmc 6.11) checks assignments to locals inside loops that have no contract against the write set
             # but only records locals whose address is taken; taking the address is semantically neutral.
